@@ -145,6 +145,31 @@ PROPS = {
             "implementation returned a different value/error kind on this input (for spec-disagreement: a different multiple than "
             "the one the rounding mode prescribes counted from midnight).",
     },
+    "C11": {
+        "lean_modules": ["TemporalModel.Props.C11"],
+        "suites": ["c11"],
+        "level_text": "Proof (writers and canonical readers on character lists, Model/Format.lean): C11_digits_roundtrip (a zero-"
+                      "padded field of any width reads back as the number), C11_year_shape / C11_year_roundtrip (four digits for "
+                      "0..9999, a sign and six digits otherwise; every such year reads back), C11_date_roundtrip (every date text "
+                      "reads back as the date, whatever follows it), C11_fraction_exact_digits (n requested digits are exactly the "
+                      "leading n of the nine), C11_fraction_minimal (auto precision: no trailing zero, nothing lost, the value is "
+                      "recovered), C11_offset_shape (+-HH:MM), C11_calendar_last / C11_calendar_shown (annotation order and "
+                      "presence). Tie: the model's text is compared character by character with to_ixdtf_string / "
+                      "as_temporal_string of PlainDate, PlainTime, PlainDateTime, PlainYearMonth, PlainMonthDay, Instant (Z and "
+                      "fixed offsets), ZonedDateTime (fixed-offset zones, every display option) and Duration over every precision "
+                      "(auto, minute, 0-9 digits), smallest unit and rounding mode, including rounding carries into the next day and "
+                      "year; and the round trip parse(format(v)) = v, format(parse(format(v))) = format(v) is evaluated on the "
+                      "implementation for every type, every option enum (Display/FromStr), month codes, UTC offsets, every zone id "
+                      "and calendar id.",
+        "level_note": "Trusted: Lean kernel (+propext, Classical.choice, Quot.sound); the hand model of parsers.rs writers and of "
+                      "the to-string operations (option resolution is C10's model, rounding C05/C07's). The round trip through the "
+                      "*implementation's* parser is checked on samples (it is C12's grammar that the parser is compared against); "
+                      "the theorems prove the round trip for the model's canonical readers. Named-zone ZonedDateTime text is "
+                      "covered by rt_zdt only for fixed offsets (named zones: C13/C15 + the C03 sweep).",
+        "why_difference_is_violation":
+            "The model writes the canonical text proved round-trippable in C11_*; the implementation wrote a different text, or "
+            "parsing its own output did not give the value back (rt_* lines: expected 1).",
+    },
     "C13": {
         "lean_modules": ["TemporalModel.Props.C13"],
         "suites": ["c13"],
